@@ -38,10 +38,11 @@ func (v tval) String() string {
 }
 
 type tableEval struct {
-	c     *Ctx
-	leaf  func(f *Func, e ast.Expr) (tval, bool) // rule-specific operands
-	why   string                                // set when undecided
-	depth int
+	c      *Ctx
+	leaf   func(f *Func, e ast.Expr) (tval, bool) // rule-specific operands
+	effect func(f *Func, call *ast.CallExpr) bool // statement-level calls the rule knows about (recorded or ignored)
+	why    string                                 // set when undecided
+	depth  int
 }
 
 func (t *tableEval) fail(f *Func, n ast.Node, what string) {
@@ -214,6 +215,32 @@ func (t *tableEval) stmt(f *Func, s ast.Stmt, env tenv) ([]tval, bool, bool) {
 		return nil, false, true
 	case *ast.EmptyStmt:
 		return nil, false, true
+	case *ast.ExprStmt:
+		if call, ok := ast.Unparen(s.X).(*ast.CallExpr); ok {
+			if t.effect != nil && t.effect(f, call) {
+				return nil, false, true
+			}
+			// a call of a library function evaluated for its effects
+			ce := resolveCallee(info, call)
+			if g := t.c.P.byObj[ce.Key]; g != nil && g.Lib && !ce.Iface {
+				var args []tval
+				for _, a := range call.Args {
+					v, ok := t.expr(f, a, env)
+					if !ok {
+						return nil, false, false
+					}
+					args = append(args, v)
+				}
+				if _, ok := t.call(g, args); ok {
+					return nil, false, true
+				}
+				return nil, false, false
+			}
+		}
+	case *ast.DeferStmt:
+		if t.effect != nil && t.effect(f, s.Call) {
+			return nil, false, true
+		}
 	}
 	t.fail(f, s, fmt.Sprintf("statement %T not supported by the table evaluator", s))
 	return nil, false, false
